@@ -294,7 +294,7 @@ reg(P("C20", "plugins", "c20",
                    "the half-open restart value of the failure counter is not fixed by the property (any value "
                    "in 0..threshold is accepted)"],
       sig_reset=("threshold", "mock", "recovery"), sig_event=("o", "el", "fwd", "res"),
-      mutate=_c20_mutate, design_ref="DESIGN.md §6 C20",
+      mutate=_c20_mutate, design_ref="DESIGN.md §3 C20",
       technique="TLC exhaustive model checking of CircuitBreaker.tla, TLC + Apalache (inductive invariant) on the failure counter under concurrency, TLC trace validation of real executions"))
 
 
@@ -329,7 +329,7 @@ reg(P("C15", "plugins", "c15",
                    "'affects only later calls' is judged per plugin manager: the list a call traverses in a manager "
                    "is the manager's list at the moment the call fetched it (see DESIGN.md C15)"],
       sig_reset=("side", "conc", "twin"), sig_event=("ev", "mgr", "h"),
-      mutate=_c15_mutate, design_ref="DESIGN.md §6 C15",
+      mutate=_c15_mutate, design_ref="DESIGN.md §3 C15",
       technique="TLC refinement check PluginManagerImpl => PluginChain + TLC trace validation of recorded traversals"))
 
 
@@ -361,7 +361,7 @@ reg(P("C16", "plugins", "c16",
       assumptions=["retry intervals are configured to zero", "fan-out completion order is the order in which the harness "
                    "releases the parked attempts; a fork's success must be followed by the caller's return within 3 s"],
       sig_reset=("mode",), sig_event=("ev",),
-      mutate=_c16_mutate, design_ref="DESIGN.md §6 C16",
+      mutate=_c16_mutate, design_ref="DESIGN.md §3 C16",
       technique="TLC refinement check ClusterImpl => Cluster, TLC + Apalache (inductive invariant) on the shared index under concurrency, TLC trace validation of recorded attempts"))
 
 
@@ -388,7 +388,7 @@ reg(P("C18", "plugins", "c18",
                    "the smooth weighted round-robin is judged as the nginx algorithm over effective weights, ties free",
                    "in-flight counters are read through a verif-only accessor"],
       sig_reset=("algo", "conc"), sig_event=("ev",),
-      mutate=_c18_mutate, design_ref="DESIGN.md §6 C18",
+      mutate=_c18_mutate, design_ref="DESIGN.md §3 C18",
       technique="TLC model checking of the transcribed algorithms (cycle exactness, refinement) + TLC trace validation of real picks"))
 
 
@@ -422,7 +422,7 @@ reg(P("C17", "plugins", "c17",
                    "clock value inside the bracket explains",
                    "the bound is burst + rate*elapsed + two requests (the algorithm clamps after charging and admits on credit)"],
       sig_reset=("kind",), sig_event=("ev", "res"),
-      mutate=_c17_mutate, design_ref="DESIGN.md §6 C17",
+      mutate=_c17_mutate, design_ref="DESIGN.md §3 C17",
       technique="TLC model checking of LimiterImpl (semaphore interleavings, rate bound), Apalache inductive invariant of the semaphore, TLC trace validation with interval arithmetic"))
 
 
@@ -463,7 +463,7 @@ reg(P("C09", "mux", "c09",
            "non-trivial = every case (>= 12 concurrent callers, a forced wrap, or a reverse scenario)",
       assumptions=_MUX_COMMON_ASSUME + ["wrap-around is produced by setting the request counter through a verif-only accessor"],
       sig_reset=("kind", "mode"), sig_event=("ev", "kind"),
-      mutate=_mux_mutate, design_ref="DESIGN.md §6 C09",
+      mutate=_mux_mutate, design_ref="DESIGN.md §3 C09",
       technique="TLC model checking of Mux.tla (OwnResponse over all interleavings, answer orders, duplicates, strays, wrap) and Reverse.tla (NoDeadLetter, NoStuckPoll, OwnResult, NoSleepingCall, liveness) + TLC trace validation of real concurrent calls and reverse calls against MuxMonitor"))
 
 reg(P("C10", "mux", "c10",
@@ -479,7 +479,7 @@ reg(P("C10", "mux", "c10",
            "(transport, fault, position) class); callers are stepped through verif yield points; non-trivial = a fault occurs",
       assumptions=_MUX_COMMON_ASSUME + ["goroutine census is taken when no connection is pooled, polled for up to 3 s"],
       sig_reset=("kind", "fault"), sig_event=("ev", "kind"),
-      mutate=_mux_mutate, design_ref="DESIGN.md §6 C10",
+      mutate=_mux_mutate, design_ref="DESIGN.md §3 C10",
       technique="TLC model checking of Mux.tla (NoOrphan, NoLeakedSender, CleanAtQuiescence, liveness under fairness) + gate-stepped schedules on the real transports validated against MuxMonitor"))
 
 
@@ -515,7 +515,7 @@ reg(P("C19", "push", "c19",
                    "clients talk to the broker over the mock transport (heart-beat scenarios: also tcp, one connection per client id)",
                    "heart-beat scenarios run in real time: heart beat 400 ms, the client polls again within 40 ms"],
       sig_reset=("mode", "scenario"), sig_event=("ev",),
-      mutate=_c19_mutate, design_ref="DESIGN.md §6 C19",
+      mutate=_c19_mutate, design_ref="DESIGN.md §3 C19",
       technique="TLC model checking of Push.tla (StaysOnline, NoDeadLetter, Conservation, InOrder, liveness of the time-out handshake) + TLC trace validation of real broker runs against the linearizable PushMonitor"))
 
 
@@ -570,7 +570,7 @@ reg(P("C01", "format", "c01",
            "pairs, anonymous struct field + shared pointer fields, interface, 2-D slices, hand-declared named / tagged / "
            "embedded / all-widths / special-types structs; depth 2 for all leaves in thorough) x boundary value classes x "
            "{simple, reference}; distinct = (shape, value class, mode); non-trivial = all but the 8 bare bool/zero cells",
-      assumptions=_FMT_ASSUME, sig_fn=_fmt_sig, mutate=_fmt_mutate_c01, design_ref="DESIGN.md §6 C01",
+      assumptions=_FMT_ASSUME, sig_fn=_fmt_sig, mutate=_fmt_mutate_c01, design_ref="DESIGN.md §3 C01",
       technique="TLC evaluates HproseFormat!C01OK (SameValue over abstract value graphs) on every recorded round trip; generator-recogniser self check by TLC"))
 reg(P("C03", "format", "c03",
       mc={"quick": [("FormatSelf", "FormatSelf.cfg", 600)], "thorough": [("FormatSelf", "FormatSelf_big.cfg", 1500)]},
@@ -581,7 +581,7 @@ reg(P("C03", "format", "c03",
            "the value) and checks that the denotation matches the input (WireMatch); plus sequences of values written "
            "to one encoder",
       assumptions=_FMT_ASSUME + ["the grammar is the published Hprose serialization grammar as transcribed in HproseFormat.tla"],
-      sig_fn=_fmt_sig, mutate=_fmt_mutate_c03, design_ref="DESIGN.md §6 C03",
+      sig_fn=_fmt_sig, mutate=_fmt_mutate_c03, design_ref="DESIGN.md §3 C03",
       technique="TLC runs the HproseFormat recogniser (Parse) and the WireMatch contract on the token stream of every real encoder output"))
 
 
@@ -605,7 +605,7 @@ reg(P("C02", "format", "c02",
            "repeats of the first and the last; non-trivial = a graph with sharing or a cycle, or any prefix case",
       assumptions=_FMT_ASSUME + ["'written once' is judged for objects reached through Go pointers; a map or slice value "
                                  "stored twice and a complex number written as a list may be written again"],
-      sig_fn=_fmt_sig, mutate=_fmt_mutate_c02, design_ref="DESIGN.md §6 C02",
+      sig_fn=_fmt_sig, mutate=_fmt_mutate_c02, design_ref="DESIGN.md §3 C02",
       technique="TLC parses the real reference-mode streams (reference and class tables) and decides WireMatch / SameValue coinductively on the value graphs"))
 
 
@@ -637,7 +637,7 @@ reg(P("C05", "format", "c05",
            "pattern, stream length); the contiguous decode of the same bytes is the reference",
       assumptions=_FMT_ASSUME + ["buffer sizes below the library's default are ignored by NewDecoderFromReader, so fragmentation "
                                  "is produced by the reader's chunking"],
-      sig_fn=_c05_sig, mutate=_fmt_mutate_c05, design_ref="DESIGN.md §6 C05",
+      sig_fn=_c05_sig, mutate=_fmt_mutate_c05, design_ref="DESIGN.md §3 C05",
       technique="TLC model checking of DecoderBuf.tla (transcribed refill loop, all streams x chunk patterns) + TLC comparison of streamed and contiguous outcomes of the real decoder"))
 
 
@@ -672,7 +672,7 @@ reg(P("C06", "format", "c06",
                                  "computed by the harness with math/big, independently of the library",
                                  "conversions the property does not pin down are marked unspecified in FormatConv.tla and only "
                                  "checked for crashes, the canary and consistency across positions"],
-      sig_fn=_c06_sig, mutate=_c06_mutate, design_ref="DESIGN.md §6 C06",
+      sig_fn=_c06_sig, mutate=_c06_mutate, design_ref="DESIGN.md §3 C06",
       technique="TLC parses each hand-written stream with the HproseFormat recogniser, derives the required outcome from the FormatConv conversion matrix and judges the real decoder's outcome at every position"))
 
 
@@ -703,7 +703,7 @@ reg(P("C04", "format", "c04",
       assumptions=_FMT_ASSUME + ["each input runs in a child process with an 8 GiB address-space limit, a 64 MiB stack limit and a 3 s "
                                  "deadline; over-allocation = TotalAlloc delta above 256 x len + 1 MiB",
                                  "'all byte strings' is sampled, not exhausted, beyond the one-edit neighbourhoods"],
-      sig_fn=_c04_sig, mutate=_c04_mutate, design_ref="DESIGN.md §6 C04",
+      sig_fn=_c04_sig, mutate=_c04_mutate, design_ref="DESIGN.md §3 C04",
       technique="grammar-aware mutation of streams, direct observation of crash / hang / allocation in a child process; the HproseFormat recogniser (TLC) labels each stream malformed or not and demands an error for malformed ones"))
 
 
@@ -730,7 +730,7 @@ reg(P("C07", "format", "c07",
                                  "for struct values what is on the wire is not compared with the value passed (JSON keys are Go's field names)"],
       sig_fn=lambda reset, event: {"label": reset.get("label"), "csimple": reset.get("csimple"), "ssimple": reset.get("ssimple"),
                                    "types": (reset.get("opts") or {}).get("types")},
-      mutate=_c07_mutate, design_ref="DESIGN.md §6 C07",
+      mutate=_c07_mutate, design_ref="DESIGN.md §3 C07",
       technique="TLC recognises the real request and response bytes segment by segment (RpcCodec.tla: reference scopes, simple header) and compares what each codec decoded with what the other side passed; JSON-RPC exchanges judged by RpcCodec!JsonWhy"))
 
 
@@ -756,7 +756,7 @@ reg(P("C08", "calls", "c08",
                    "invocation is attributed to the call in progress"],
       sig_fn=lambda reset, event: {"kind": reset.get("kind"), "call": reset.get("callname"), "ev": (event or {}).get("ev"),
                                    "retkind": (event or {}).get("kind")},
-      mutate=_c08_mutate, design_ref="DESIGN.md §6 C08",
+      mutate=_c08_mutate, design_ref="DESIGN.md §3 C08",
       technique="TLC trace validation of real remote calls against the RpcCall monitor (lookup, exactly-once invocation, argument and result equality by SameValue)"))
 
 
@@ -806,7 +806,7 @@ reg(P("C12", "calls", "c12",
            "peer to a real client}; plus the replay of the Framing model's message space into udp / tcp / net/http "
            "(every single message, seeded sequences of 2-3); every case is non-trivial",
       assumptions=_CALLS_ASSUME, sig_fn=_calls_sig, mutate=_calls_mutate(("handled", "h"), "000000000000"),
-      design_ref="DESIGN.md §6 C12",
+      design_ref="DESIGN.md §3 C12",
       technique="TLC model checking of Framing.tla (receivers of the datagram / stream / http frame layers against lying senders: ExactOrNothing, NoForeignBytes; three defect variants refuted) + replay of the model's message space into the real transports validated by FramingTrace + TLC trace validation of recorded deliveries against the Framing monitor"))
 reg(P("C13", "calls", "c13",
       mc=_FRAMING_MC, traces=[("", "CallsTrace", "CallsTrace.cfg"), (".framing", "FramingTrace", "FramingTrace.cfg")], level="model_checking",
@@ -814,7 +814,7 @@ reg(P("C13", "calls", "c13",
            "x declaration {truthful (honest client), absent (HTTP chunked), smaller than actual (HTTP Content-Length, raw "
            "socket / UDP frame), truthful raw frame}; every case is non-trivial",
       assumptions=_CALLS_ASSUME, sig_fn=_calls_sig, mutate=_c13_mutate,
-      design_ref="DESIGN.md §6 C13",
+      design_ref="DESIGN.md §3 C13",
       technique="TLC model checking of Framing.tla (NeverOverLimit, RefusedIfOver for declared, absent and lying lengths) + replay of the model's message space into the real transports validated by FramingTrace + TLC trace validation of recorded requests against the MaxLen monitor"))
 reg(P("C11", "calls", "c11",
       mc={"quick": [], "thorough": []}, traces=[("", "CallsTrace", "CallsTrace.cfg")], level="fault_enumeration",
@@ -826,7 +826,7 @@ reg(P("C11", "calls", "c11",
            "after every fault a sentinel call on the same client and on another client; distinct = (transport, scenario)",
       assumptions=_CALLS_ASSUME + ["closing the one connection a malformed frame arrived on is allowed"],
       sig_fn=_calls_sig, mutate=_calls_mutate(("sentinel", "ok"), False),
-      design_ref="DESIGN.md §6 C11",
+      design_ref="DESIGN.md §3 C11",
       technique="fault enumeration in child processes; TLC trace validation against the Containment monitor"))
 
 
@@ -856,5 +856,5 @@ reg(P("C14", "coders", "c14",
       assumptions=["absence of data races is observed (thorough: with the race detector build), not proved: TLA+ states are "
                    "sequentially consistent", "48 fresh named type families per process"],
       sig_fn=lambda reset, event: {"what": _re.sub(r"[0-9]+", "#", reset.get("what", ""))[:60]},
-      mutate=_c14_mutate, design_ref="DESIGN.md §6 C14",
+      mutate=_c14_mutate, design_ref="DESIGN.md §3 C14",
       technique="TLC model checking of LazyRegistry.tla and CoderPool.tla + gate-forced schedules and pooled-coder sequences on the real coders judged by Coders!C14Why"))
